@@ -147,7 +147,7 @@ def main():
             c.discard("tool not clean on the uncorrupted base (%s on %s: %s)" % (j["tool"], j["base"]["desc"], _kind(r)))
         else:
             usable.add((j["base"]["tag"], j["tool"]))
-    limit = min(max(10.0, 50 * statistics.median([r.wall for r in bres])), 90.0)
+    limit = min(max(10.0, 50 * statistics.median([r.wall for r in bres])), 30.0)
 
     # ---- corruptions -> jobs
     TABLE = ("hash", "gnu")
@@ -199,19 +199,17 @@ def main():
               "base": j["base"]["tag"], "detail": j["detail"]}
         return ev
     events = [event(j, r) for j, r in zip(jobs, res)]
-    # confirming re-run of time-outs (one per class key), with twice the limit
-    seen = set()
-    for i, (j, ev) in enumerate(zip(jobs, events)):
-        if ev["kind"] == "timeout":
-            key = (ev["corruption"], ev["tool"])
-            if key in seen:
-                continue
-            seen.add(key)
-            r2 = runit(j, 2 * limit)
-            if not r2.timeout:
-                res[i] = r2
-                events[i] = event(j, r2)
-                c.discard("time-out not confirmed by the re-run")
+    # confirming re-run of time-outs (one per class key, side by side), with twice the limit
+    seen, again = set(), []
+    for i, ev in enumerate(events):
+        if ev["kind"] == "timeout" and (ev["corruption"], ev["tool"]) not in seen:
+            seen.add((ev["corruption"], ev["tool"]))
+            again.append(i)
+    for i, r2 in zip(again, vf.pmap(lambda i: runit(jobs[i], 2 * limit), again)):
+        if not r2.timeout:
+            res[i] = r2
+            events[i] = event(jobs[i], r2)
+            c.discard("time-out not confirmed by the re-run")
     c.cov["evaluations"] = len(events)
 
     # ---- model results
